@@ -194,6 +194,7 @@ FORBIDDEN = [
     ("randomness source", r"\brand::|\bthread_rng\b|\bgetrandom\b|\bOsRng\b|\bfrom_entropy\b|\bfastrand\b"),
     ("pointer to integer", r"\bas\s+\*\s*(const|mut)\s+[^;,)]*\bas\s+[ui](size|64|32|128)\b|\.as_(mut_)?ptr\(\)\s*(as\s+[ui](size|64)|[<>]=?|==)"
                            r"|\.addr\(\)|\bexpose_(addr|provenance)\b|\bptr::addr_eq\b|\bfrom_exposed_addr\b|&\w+\s+as\s+\*const\s+\w+\s+as\s+usize"),
+    ("pointer ordering / hashing", r"as\s+\*\s*(const|mut)\s+[^;]*?\)\s*(<=?|>=?)\s*\(|\bptr::(hash|from_ref)\b|\.cmp\(&\(?\w+\s+as\s+\*|\bsort(_unstable)?_by_key\(\|\w+\|\s*\w+\s+as\s+\*"),
     ("pointer formatting", r"\{[^{}]*:\s*#?p\}"),
     ("type identity / backtrace", r"\bTypeId\b|\btype_name\b|\bBacktrace\b|\bLocation::caller\b"),
     ("process / fs / net", r"\bstd::(process|fs|net|os)\b"),
